@@ -265,6 +265,22 @@ def execute(scn_cls, seed=None, config=None, steps=None, keep_events=False, scra
             res.violation = {"property": scn.prop, "kind": v.kind, "detail": v.detail,
                              "signature": v.signature, "step": len(res.steps)}
             ctx.event({"violation": v.kind})
+        except HarnessError:
+            raise
+        except Exception as e:
+            # An exception that escapes a scenario.  Scenarios only issue calls that are valid by the documentation
+            # (and turn the documented refusals - CuckooFilterFullError, QuotientFilterError - into "indeterminate"
+            # themselves), so an exception RAISED INSIDE THE LIBRARY here means the call the property speaks about
+            # produced no result: reported as a violation of the property whose scenario issued the call.  An
+            # exception raised in harness code stays a harness error.
+            where = _raised_in_library(e)
+            if where is None:
+                raise
+            res.violation = {"property": scn.prop, "kind": "unexpected_exception",
+                             "detail": f"{type(e).__name__}: {e} raised at {where} during step "
+                                       f"{canon(res.steps[-1]) if res.steps else 'setup'}",
+                             "signature": {"exception": type(e).__name__}, "step": len(res.steps)}
+            ctx.event({"violation": "unexpected_exception"})
     finally:
         try:
             scn.teardown()
@@ -278,6 +294,23 @@ def execute(scn_cls, seed=None, config=None, steps=None, keep_events=False, scra
     res.n_events = ctx.n_events
     res.events = ctx.events
     return res
+
+
+def _raised_in_library(exc):
+    """file:line of the innermost frame if the exception was raised by library code (or by a C function the
+    library called directly), else None."""
+    prefix = os.path.join(os.path.realpath(repo_path()), "probables") + os.sep
+    tb = exc.__traceback__
+    last = None
+    while tb is not None:
+        last = tb
+        tb = tb.tb_next
+    if last is None:
+        return None
+    fn = last.tb_frame.f_code.co_filename
+    if os.path.realpath(fn).startswith(prefix):
+        return f"{os.path.relpath(fn, os.path.dirname(prefix.rstrip(os.sep)))}:{last.tb_lineno}"
+    return None
 
 
 def repo_path():
